@@ -483,11 +483,11 @@ def sweep_pn_values(rng, kind, step=1, first_id=1, to=0, sweeps=True):
     if not sweeps:
         return out
     for num in range(rng.randrange(step), 16384, step):
-        reg = rng.randrange(2)
-        if rng.random() < 0.5:
-            emit([ch, num, rng.randrange(16384), reg, 1, 0])
-        else:
-            emit([ch, num, rng.randrange(128), reg, 0, rng.randrange(3)])
+        for reg in ((0, 1) if step == 1 else (rng.randrange(2),)):      # full sweeps cover both kinds
+            if rng.random() < 0.5:
+                emit([ch, num, rng.randrange(16384), reg, 1, 0])
+            else:
+                emit([ch, num, rng.randrange(128), reg, 0, rng.randrange(3)])
     num = rng.randrange(16384)
     for v in range(rng.randrange(step), 16384, step):
         emit([ch, num, v, rng.randrange(2), 1, 0])
